@@ -42,7 +42,7 @@ def gen_case(ctx, i):
         max_hw = [None, None]
     c = {"i": i, "model": model, "H": H, "W": W, "max_hw": max_hw, "max_stride": int(r.choice([8, 16, 32])), "batch": int(r.integers(1, 6)),
          "refinement": [None, "integral"][int(r.integers(0, 2))], "n_frames": int(r.integers(2, 5)), "seed": int(r.integers(0, 2 ** 31)),
-         "n_nodes": int(r.integers(2, 5)), "two_videos": bool(r.random() < 0.3 and mode != "none")}
+         "n_nodes": int(r.integers(2, 5)), "two_videos": bool(r.random() < 0.3 and mode != "none"), "margin": float(r.choice([20.0, 20.0, 4.0]))}
     if c["two_videos"] and r.random() < 0.6:
         c["max_hw"] = "fit-largest"  # size matching to the largest video: one video keeps eff_scale 1, the other is rescaled
     if model == "single":
@@ -60,6 +60,13 @@ def directed(ctx):
            "two_videos": False, "scale": 0.5, "stride": 2, "n_animals": 1, "missing_p": 0.0}
     yield {"i": -2, "model": "topdown", "H": 200, "W": 160, "max_hw": [None, None], "max_stride": 16, "batch": 2, "refinement": None, "n_frames": 2, "seed": 8, "n_nodes": 3,
            "two_videos": False, "c_scale": 0.5, "i_scale": 1.0, "c_stride": 2, "i_stride": 2, "n_animals": 2, "missing_p": 0.0, "anchor": 0, "crop": 64}
+    yield from directed_border()
+
+
+def directed_border():
+    # known finding: integral refinement near the border of a 7x4-cell map (186x118 frame, size-matched to 103x63, scale 0.5, stride 8)
+    yield {"i": -3, "model": "single", "H": 186, "W": 118, "max_hw": [103, 63], "max_stride": 8, "batch": 3, "refinement": "integral", "n_frames": 4, "seed": 906196899,
+           "n_nodes": 4, "two_videos": False, "scale": 0.5, "stride": 8, "n_animals": 1, "missing_p": 0.3}
 
 
 def cases(ctx):
@@ -80,7 +87,18 @@ def build_scene(case, name):
     poses = {}
     for v, (H, W, n) in enumerate(vids):
         for f in range(n):
-            P = e2e.make_poses(r, H, W, case["n_nodes"], case["n_animals"], missing_p=case["missing_p"])
+            P = e2e.make_poses(r, H, W, case["n_nodes"], case["n_animals"], missing_p=case["missing_p"], margin=case.get("margin", 20.0))
+            if case["model"] == "topdown" and len(P) > 1:
+                # well-separated premise at the centroid stage: the ideal centroid bumps (sigma 1.5 cells) of two animals must stay two peaks,
+                # i.e. the centroids are >= 4.5 sigma apart on the centroid grid; animals that are closer are left out of the frame
+                a_ = 0 if case.get("anchor") in (0, "missing") else None
+                need_px = 4.5 * 1.5 * case["c_stride"] / (case["c_scale"] * e2e.eff_scale_for(H, W, tuple(case["max_hw"]) if case["max_hw"] != "fit-largest" else (case["H"], case["W"])))
+                kept = []
+                for p_ in P:
+                    c_ = on.centroid_of(p_, a_)
+                    if all(np.hypot(*(c_ - on.centroid_of(q_, a_))) >= need_px for q_ in kept):
+                        kept.append(p_)
+                P = kept
             if case.get("empty_p") and f != n - 1 and r.random() < case["empty_p"]:
                 P = []  # an empty frame; the last frame of every video stays populated, so an empty frame always precedes a populated one
             if case.get("anchor") == "missing" and P:
@@ -170,7 +188,7 @@ def check(ctx, case):
             recs = records(case, outs)
             results[provider] = recs
             keys = sf.labeled_keys if provider == "LabelsReader" else [(0, f) for f in range(vids[0][2])]
-            check_records(ctx, case, small, sf, vids, provider, recs, keys, max_hw)
+            check_records(ctx, case, small, sf, vids, provider, recs, keys, max_hw, log)
         # providers agree (frames of video 0 that both delivered)
         if len(results) == 2 and not inconclusive:
             a = {(v, f): [] for v, f, _, _ in results["VideoReader"]}
@@ -206,7 +224,7 @@ def tol_of(case, sf, vids, v, max_hw):
     return e2e.tol(case["i_stride"], H, W, max_hw, case["i_scale"])
 
 
-def check_records(ctx, case, small, sf, vids, provider, recs, keys, max_hw):
+def check_records(ctx, case, small, sf, vids, provider, recs, keys, max_hw, log=()):
     by = {}
     for v, f, p, val in recs:
         by.setdefault((v, f), []).append((p, val))
@@ -254,6 +272,16 @@ def check_records(ctx, case, small, sf, vids, provider, recs, keys, max_hw):
             err = np.abs(p[vis] - g[vis]).max() if vis.any() else 0.0
             if err > tol + 1e-6:
                 key_ = KEY_LABELS if (provider == "LabelsReader" and case["model"] == "single" and (case["scale"] != 1.0)) else "coordinates-off"
+                if case["model"] == "single" and case["refinement"] == "integral":
+                    # known mechanism: the 5x5 refinement window is zero-padded outside the map, so a keypoint within two cells of the map border is
+                    # pulled inwards; accepted only if *every* offending node has a truncated window and the answer equals that model's answer
+                    ent = [l for l in log if l.get("code_id") == sf.code_of[key] and l.get("ok")]
+                    if ent:
+                        model, trunc = e2e.integral_border_model(ent[-1], g, case["stride"], 1.5)
+                        bad = vis & (np.abs(p - g).max(-1) > tol + 1e-6)
+                        slack = tol - 0.5 * case["stride"] / (case["scale"] * e2e.eff_scale_for(vids[key[0]][0], vids[key[0]][1], max_hw)) + 0.05 * tol
+                        if bad.any() and trunc[bad].all() and np.abs(p[bad] - model[bad]).max() <= slack:
+                            key_ = e2e.KEY_BORDER
                 ctx.violation(key_, f"{provider} {case['model']}: frame {key}: predicted keypoints differ from the labelled ones by {err:.2f} px (tolerance {tol:.2f}); "
                                     f"pred {np.round(p[vis][:2], 1).tolist()} vs gt {g[vis][:2].tolist()}", small)
     extra = set(by) - set(keys)
